@@ -169,6 +169,84 @@ def untyped_edge_cases(ctx):
     return cases
 
 
+def relaxed_marker_position_cases(ctx):
+    """directed: relaxed dicts whose `...: ...` marker sits first / in the middle / last (declared so, or produced by `+`),
+    with keys of every flavour before and after it, substituted with values that give some keys, none, or all"""
+    from d42 import optional, schema
+    def entries():
+        return [("id", schema.int.min(1)), ("name", schema.str.len(1, 8)), (optional("tag"), schema.str("t")), ("n", schema.none)]
+    cases = []
+    for pos in range(0, 5):
+        items = entries()
+        items.insert(pos, (..., ...))
+        try:
+            s = schema.dict(dict(items))
+        except Exception:  # noqa: BLE001
+            continue
+        variants = [s]
+        try:
+            variants.append(schema.dict({...: ...}) + schema.dict(dict(entries()[:pos])) + schema.dict(dict(entries()[pos:])))
+            variants.append(schema.dict(dict(entries()[:2])) + schema.dict({...: ...}) + schema.dict(dict(entries()[2:])))
+        except Exception:  # noqa: BLE001
+            pass
+        for sv in variants:
+            for v in ({"id": 7}, {}, {"name": "ab"}, {"id": 7, "name": "ab", "n": None}, {"id": 7, "extra": 1}, {"tag": "t"},
+                      {"n": None, "id": 2}):
+                full = {"id": 7, "name": "ab", "n": None}
+                full.update(v)
+                cases.append(SubCase(sv, full, v, "relaxed-marker-position"))
+                for wrap in (lambda t: schema.list([t, ...]), lambda t: schema.dict({"in": t})):
+                    cases.append(SubCase(wrap(sv), [full] if wrap(sv).__class__.__name__ == "ListSchema" else {"in": full},
+                                         [v] if wrap(sv).__class__.__name__ == "ListSchema" else {"in": v}, "relaxed-marker-position"))
+    return cases
+
+
+def list_ellipsis_position_cases(ctx):
+    """directed: list values of length 1..5 with `...` at EVERY position (and at two positions), substituted into untyped,
+    typed, length-bound and element lists, at the root and nested"""
+    import itertools
+    from d42 import schema
+    shapes = [lambda: schema.list, lambda: schema.list.len(3), lambda: schema.list.len(1, 5), lambda: schema.list(schema.int),
+              lambda: schema.list([schema.int, schema.int]), lambda: schema.list([schema.int, ...]), lambda: schema.list([..., schema.int]),
+              lambda: schema.list([..., schema.int, ...]), lambda: schema.any, lambda: schema.any(schema.list, schema.str)]
+    cases = []
+    for n in range(1, 6):
+        for pos in itertools.chain(([i] for i in range(n)), itertools.combinations(range(n), 2)):
+            v = [(... if i in pos else i + 1) for i in range(n)]
+            for mk in shapes:
+                try:
+                    s = mk()
+                except Exception:  # noqa: BLE001
+                    continue
+                cases.append(SubCase(s, [i + 1 for i in range(n)], list(v), "list-ellipsis-position"))
+                cases.append(SubCase(schema.dict({"xs": s}), {"xs": [i + 1 for i in range(n)]}, {"xs": list(v)}, "list-ellipsis-position"))
+    return cases
+
+
+def untyped_zoo_cases(ctx):
+    """directed: values of kinds from_native does NOT convert (tuples, sets, Decimal, bytearray, ranges, opaque objects …)
+    alone and nested at every untyped position. On a correct tree substitution refuses them; a tree that lets one through
+    must still honour C04 / C05 / C12 for it (the value has no `...` placeholder, so it is a plain value for those)"""
+    import decimal
+    import fractions
+    from d42 import schema
+    from .gen_value import MyList, Opaque
+    odd = [(1, 2), (), ("a", (1,)), {1, 2}, frozenset({1}), decimal.Decimal("1.5"), fractions.Fraction(1, 3), bytearray(b"ab"),
+           range(3), Opaque(), 1 + 2j, memoryview(b"x"), MyList([1, 2]), iter([1]), {"k": (1, 2)}, [(1, 2)], [1, (2, 3)]]
+    cases = []
+    for a in odd:
+        for mk in (lambda a: (schema.dict, {"point": a}), lambda a: (schema.list, [a]), lambda a: (schema.any, a),
+                   lambda a: (schema.dict({"k": schema.int, ...: ...}), {"k": 5, "x": a}),
+                   lambda a: (schema.list([schema.str, ...]), ["s", a]), lambda a: (schema.list(schema.any), [a, 1]),
+                   lambda a: (schema.dict({"m": schema.any}), {"m": a}), lambda a: (schema.any(schema.list, schema.dict), [a])):
+            try:
+                s, v = mk(a)
+            except Exception:  # noqa: BLE001
+                continue
+            cases.append(SubCase(s, v, v, "untyped-zoo"))
+    return cases
+
+
 def list_window_cases(ctx):
     """directed: element lists WITHOUT `...` that also carry a length window with room above or below their element
     count (declared so, or produced by substituting into a typed list with a window — a two-step sequence), against
